@@ -3,17 +3,6 @@
 Require Import SF.Prelude SF.Dtype SF.Value SF.PyDyn SF.SortCore SF.SortModel Gen.Gen_util Gen.Gen_c12.
 Local Open Scope string_scope.
 
-(* Series.sort_values(key=...) with a key result SHORTER than the Series: rows are silently dropped *)
-Theorem C12_series_sort_values_short_key_refuted :
-  exists s c r, M_series_sort_values code_params s (Some c) true = Ok r /\
-                (length (os_index r) <? length (os_index (ss_obs s)))%nat = true.
-Proof.
-  exists (mk_sseries (mk_oseries [VStr "a"; VStr "b"; VStr "c"; VStr "d"] [VInt 3; VInt 1; VInt 2; VInt 1] (DInt true 8) (VStr "n")) 1).
-  exists (CArr1 [VInt 3; VInt 1]).
-  eexists. split; [vm_compute; reflexivity|vm_compute; reflexivity].
-Qed.
-Print Assumptions C12_series_sort_values_short_key_refuted.
-
 (* a key function returning a 2-D array with ONE column: sort_index_for_order argsorts the 2-D array *)
 Theorem C12_key_2d_one_column_refuted :
   exists s c, vecs_len_ok (length (os_index (ss_obs s))) c = true /\
